@@ -104,6 +104,43 @@ def leaves_test(rng, idx, n):
     return fn, nsat, kind
 
 
+def transfer_guard_test(rng, idx):
+    """path A: (v > balance) and a value transfer of v (implicit, non-branching constraint balance >= v): unsat.
+    path B: the same branching condition without the transfer, satisfiable.  One failing input exists (B)."""
+    U = ("uint", 256)
+    variant = rng.randrange(2)
+    wa, wb = (1, 2) if variant == 0 else (2, 1)
+    call = [0, 0, 0, 0] + A.arg(0) + [0x9999, 0xFFFF, "CALL", "@bad", "JUMPI", "STOP"]
+    other = A.arg(1) + [wb, "EQ", "@bad", "JUMPI", "STOP"]
+    if variant == 0:
+        # halmos explores the fall-through side of a JUMPI first: here the satisfiable path B comes first
+        mid = A.arg(1) + [wa, "EQ", "@callpath", "JUMPI"] + other + [":callpath"] + call
+    else:
+        # ... and here the unsatisfiable path A (with the implicit transfer constraint) is explored and answered first
+        mid = A.arg(1) + [wa, "EQ", "ISZERO", "@otherpath", "JUMPI"] + call + [":otherpath"] + other
+    toks = ["SELFBALANCE"] + A.arg(0) + ["GT", "ISZERO", "@end", "JUMPI"] + mid + [":end", "STOP", ":bad"] + A.panic(1)
+    return A.Fn(f"check_transfer{idx}", [("v", U), ("w", U)], toks), 1, "transfer-guard"
+
+
+def bigcore_test(rng, idx, nbits=None):
+    """path A needs an unsat core of nbits+1 assertions (all bit conditions + the guard); sibling path B shares the bit
+    conditions and is satisfiable"""
+    U = ("uint", 256)
+    nbits = nbits or rng.choice([24, 30, 40])
+    mask = (1 << nbits) - 1
+    toks = []
+    for i in range(nbits):
+        toks += A.arg(0) + [1 << i, "AND", "ISZERO", "@out", "JUMPI"]
+    pathB = A.arg(0) + [0xFF, "AND", 0xFF, "EQ"] + A.arg(1) + [2, "EQ", "AND", "@bad", "JUMPI", "STOP"]          # B: satisfiable
+    pathA = A.arg(0) + [mask, "AND", mask, "EQ", "ISZERO", "@bad", "JUMPI", "STOP"]                              # A: needs every bit condition
+    if rng.random() < 0.5:
+        toks += A.arg(1) + [1, "EQ", "@pa", "JUMPI"] + pathB + [":pa"] + pathA      # B explored first
+    else:
+        toks += A.arg(1) + [1, "EQ", "ISZERO", "@pb", "JUMPI"] + pathA + [":pb"] + pathB   # A explored (and answered) first
+    toks += [":out", "STOP", ":bad"] + A.panic(1)
+    return A.Fn(f"check_bigcore{idx}", [("x", U), ("w", U)], toks), 1, f"bigcore-{nbits}"
+
+
 def resolve_hit(hit, res):
     """independent decision of a query that was answered 'unsat' from the cache"""
     ctx = z3.Context()
@@ -161,7 +198,13 @@ def case(seed, idx, res):
                                               kinds=["xor_add", "mul", "div", "two_args", "storage", "conj3", "unsat", "smod_zero", "addmod_zero", "signed", "shift"])
     extra = []
     for j in range(rng.randrange(1, 3)):
-        fn, nsat, kind = leaves_test(rng, j, rng.randrange(3, 7))
+        k = rng.random()
+        if k < 0.45:
+            fn, nsat, kind = leaves_test(rng, j, rng.randrange(3, 7))
+        elif k < 0.72:
+            fn, nsat, kind = transfer_guard_test(rng, j)
+        else:
+            fn, nsat, kind = bigcore_test(rng, j)
         extra.append((fn, nsat, kind))
         spec.fns.append(fn)
     spec._runtime = None
